@@ -3,6 +3,7 @@
 Every case knows whether the construct is encodable (-> must be accepted AND behave) or not
 (-> must be rejected with a compile error).  Distances are not assumed: the generator measures the
 operand the compiler actually emits for two small paddings and extrapolates linearly."""
+import itertools
 import json
 
 from vlib import Pool
@@ -138,6 +139,23 @@ def build(binary, tier):
             s = "${1}" + "x${1}" * k   # 1 + 2k parts
             exp = "1" + "x1" * k
         count_case("interpolation parts", n, 255, "var s = \"%s\";\nprint(s.len()); print(s);" % s, [str(len(exp)), exp])
+    # the same count reached through every layout of the literal pieces: the parser counts a leading literal, each expression, the
+    # literals between expressions and the trailing literal at different places
+    for n in (254, 255, 256, 257):
+        for lead, trail, inner in itertools.product((0, 1), (0, 1), (0, 1)):
+            if inner:
+                if (n - lead - trail + 1) % 2:
+                    continue
+                k = (n - lead - trail + 1) // 2
+            else:
+                k = n - lead - trail
+            mid = ("m".join(["${1}"] * k)) if inner else "${1}" * k
+            exp = ("m".join(["1"] * k)) if inner else "1" * k
+            s = "L" * lead + mid + "T" * trail
+            exp = "L" * lead + exp + "T" * trail
+            count_case("interpolation parts (lead %d, trail %d, inner %d)" % (lead, trail, inner), n, 255,
+                       "fn f() { var a = \"A\"; var s = \"%s\"; var b = \"B\"; return (a, s.len(), s, b); }\nvar r = f(); print(r[0]); print(r[1]); print(r[2]); print(r[3]);" % s,
+                       ["A", str(len(exp)), exp, "B"])
     # locals: slot 0 is the callee, so 255 declared locals fit
     for n in (254, 255, 256, 257):
         decl = " ".join("var v%d = %d;" % (i, i) for i in range(1, n + 1))
